@@ -65,7 +65,7 @@ func vfTokenReply(q *vfkit.Decoded, bits uint16, token uint32, extra int) []byte
 	return w
 }
 
-func vfNewC16Server(t testing.TB) *vfC16Server {
+func vfNewC16Server(t vfFatal) *vfC16Server {
 	s := &vfC16Server{scripts: map[uint32]*vfC16Script{}}
 	for try := 0; try < 50; try++ {
 		l, err := net.Listen("tcp", "127.0.0.1:0")
@@ -91,6 +91,18 @@ func vfNewC16Server(t testing.TB) *vfC16Server {
 }
 
 func (s *vfC16Server) close() { s.udp.Close(); s.tcp.Close() }
+
+// stopTCP closes the TCP side (dials are refused from now on); startTCP brings it back on the same port.
+func (s *vfC16Server) stopTCP() { s.tcp.Close() }
+func (s *vfC16Server) startTCP() error {
+	l, err := net.Listen("tcp", s.addr)
+	if err != nil {
+		return err
+	}
+	s.tcp = l
+	go s.serveTCP()
+	return nil
+}
 
 func (s *vfC16Server) serveUDP() {
 	buf := make([]byte, 65535)
@@ -344,6 +356,89 @@ func TestVfC16Fallback(t *testing.T) {
 		}
 		st.Case(vfkit.Fingerprint(fmt.Sprintf("%+v", *sc), callerID), sc.udpTC, classes, func() any {
 			return map[string]any{"udp_tc": sc.udpTC, "udp_rcode": sc.udpRcode, "tcp": sc.tcp, "tcp_queries": len(tcpQ)}
+		})
+	})
+}
+
+
+// TestVfC16TcpSideComesBack: "whenever the UDP reply has TC set" includes the time right after a TCP attempt that could
+// not even connect. A server of its own per case (fresh upstream object, so no idle TCP connection exists): its TCP side
+// is down for the first truncated exchange - the caller gets an error, never the truncated message - and back, 0-900 ms
+// later, for the second, which must be carried over TCP.
+func TestVfC16TcpSideComesBack(t *testing.T) {
+	st := vfkit.Stats("TestVfC16TcpSideComesBack", "a udp upstream of its own per case against a server whose UDP replies are truncated: 1-3 exchanges while the server's TCP side is down (connection refused), then the TCP side comes back on the same port and, 0-900 ms after the last failure, 1-3 further exchanges follow; oracles: while TCP is down the caller gets an error or nothing - never the truncated UDP message; once it is back every exchange is re-sent over TCP (the TCP side receives the same query) and the caller gets the TCP reply; non-trivial = every case")
+	defer vfkit.Flush()
+	rapid.Check(t, func(t *rapid.T) {
+		srv := vfNewC16Server(t)
+		defer srv.close()
+		u, err := upstream.NewUpstream("udp://"+srv.addr, upstream.Opt{})
+		if err != nil {
+			t.Fatalf("NewUpstream: %v", err)
+		}
+		defer u.Close()
+		one := func(expectTCP bool, what string) {
+			vfC16Tok++
+			tok := vfC16Tok
+			sc := &vfC16Script{udpTC: true, tcp: "reply", udpToken: tok*2 + 1000000, tcpToken: tok*2 + 1000001}
+			srv.mu.Lock()
+			srv.scripts[tok] = sc
+			srv.mu.Unlock()
+			callerID := rapid.Uint16().Draw(t, "id")
+			qm := &vfkit.Msg{ID: callerID, Bits: vfkit.BitRD, Q: []vfkit.Question{{Name: vfkit.Name{[]byte(fmt.Sprintf("t%d", tok)), []byte("c16")}, Type: 1, Class: 1}}}
+			q, _ := vfkit.Encode(qm, vfkit.EncOpts{})
+			ctx, cancel := context.WithTimeout(context.Background(), 2*time.Second)
+			m, err := u.ExchangeContext(ctx, q)
+			cancel()
+			srv.mu.Lock()
+			tcpQ := append([][]byte(nil), sc.tcpQueries...)
+			udpN := sc.udpQueries
+			delete(srv.scripts, tok)
+			srv.mu.Unlock()
+			if udpN == 0 {
+				vfkit.Inconclusive("C16: the UDP query never reached the fake server (loopback loss?)")
+			}
+			if m != nil {
+				got, ok := vfMsgToken(m)
+				if ok && got == sc.udpToken || m.Header.Truncated {
+					t.Fatalf("%s: the truncated UDP message was returned to the caller", what)
+				}
+				if expectTCP && (!ok || got != sc.tcpToken || m.Header.ID != callerID) {
+					t.Fatalf("%s: the caller got token %d (ok=%v) under ID %d, the TCP reply was %d under ID %d", what, got, ok, m.Header.ID, sc.tcpToken, callerID)
+				}
+				dnsmsg.ReleaseMsg(m)
+			}
+			if expectTCP {
+				if len(tcpQ) == 0 {
+					t.Fatalf("%s: the UDP reply had TC set, the server's TCP side is listening, yet no query arrived over TCP (the exchange returned: message=%v err=%v)", what, m != nil, err)
+				}
+				for _, tq := range tcpQ {
+					if string(tq) != string(q) {
+						t.Fatalf("%s: the TCP leg sent a different query", what)
+					}
+				}
+				if m == nil {
+					t.Fatalf("%s: the TCP side answered, the caller got no message: %v", what, err)
+				}
+			} else if m != nil && err == nil && len(tcpQ) == 0 {
+				t.Fatalf("%s: a message was returned although nothing could be asked over TCP", what)
+			}
+		}
+		srv.stopTCP()
+		down := rapid.IntRange(1, 3).Draw(t, "exchangesWhileTcpIsDown")
+		for i := 0; i < down; i++ {
+			one(false, fmt.Sprintf("exchange %d with the TCP side down", i))
+		}
+		if err := srv.startTCP(); err != nil {
+			vfkit.Inconclusive("C16: cannot listen again on %s: %v", srv.addr, err)
+		}
+		gap := time.Duration(rapid.SampledFrom([]int{0, 0, 5, 100, 400, 900}).Draw(t, "gapMs")) * time.Millisecond
+		time.Sleep(gap)
+		up := rapid.IntRange(1, 3).Draw(t, "exchangesAfterTcpIsBack")
+		for i := 0; i < up; i++ {
+			one(true, fmt.Sprintf("exchange %d, %v after the TCP side came back (it had refused %d attempt(s))", i, gap, down))
+		}
+		st.Case(vfkit.Fingerprint(down, gap, up), true, []string{fmt.Sprintf("gap=%v", gap)}, func() any {
+			return map[string]any{"exchanges_while_down": down, "gap_ms": gap.Milliseconds(), "exchanges_after": up}
 		})
 	})
 }
